@@ -9,8 +9,9 @@ import time
 
 ROOT = os.path.dirname(os.path.dirname(os.path.abspath(__file__)))
 KNOWN_PATH = os.path.join(ROOT, "known_findings.json")
-EVID_DIR = os.path.join(ROOT, "evidence")
-REPLAY_DIR = os.path.join(ROOT, "replays")
+# (the two overrides exist for tools/reseed_all.sh, which must not overwrite the evidence of /repo with that of a seeded change)
+EVID_DIR = os.environ.get("VERIF_EVIDENCE_DIR") or os.path.join(ROOT, "evidence")
+REPLAY_DIR = os.environ.get("VERIF_REPLAY_DIR") or os.path.join(ROOT, "replays")
 
 DIALECTS = ["generic", "mysql", "postgresql", "sqlite", "mssql", "oracle"]
 
